@@ -19,14 +19,20 @@ pub mod dom;
 pub mod stubs;
 
 pub mod c01;
+pub mod c02;
 pub mod c03;
 pub mod c05;
 pub mod c06;
 pub mod c07;
+pub mod c09;
 pub mod c10;
 pub mod c11;
+pub mod c12;
+pub mod c13;
+pub mod c14;
 pub mod c15;
 pub mod c16;
+pub mod c18;
 pub mod c20;
 
 #[macro_use]
